@@ -1047,3 +1047,296 @@ def auto_persist_members(doc):
             bad.append('subclass and base share one member set')
     # multiple inheritance: members of all decorated bases that the MRO resolves first are kept by copy
     return '; '.join(bad[:3]) or None
+
+
+# ---------------------------------------------------------------------------------------------------- C08
+def checkpoint_resume(doc):
+    """bounded search: small outlines x oracles x every single crash point (and some pairs): checkpoint at a step boundary,
+    abandon the instance, load the checkpoint and continue -- calls and result must be those of the uninterrupted run"""
+    import itertools
+    import plumpy
+    import rprocs
+    from rprocs import make_chain
+
+    C = lambda n: ('call', n)
+    progs = [
+        [C('s0'), ('if', [('p0', [C('s1')]), ('p1', [C('s2'), C('s3'), C('s0')]), (None, [C('s3'), C('s1')])]), C('s0')],
+        [('while', 'p0', [C('s0'), ('if', [('p1', [C('s1'), ('ret', 7)])]), C('s2')]), C('s3')],
+        [C('s0'), ('if', [('p0', [('ret', None)])]), ('while', 'p1', [C('s1'), C('s2')]), ('ret', 3), C('s2')],
+        [('if', [('p0', [C('s0'), C('s1')])]), ('if', [('p1', [C('s2')]), ('p2', [C('s3'), C('s0'), C('s1')])])],
+    ]
+    oracles = []
+    for bits in itertools.product([False, True], repeat=3):
+        oracles.append({'p0': [bits[0], False], 'p1': [bits[1], bits[0], False], 'p2': [bits[2]]})
+    oracles.append({'p0': [True, True, False], 'p1': [False, True], 's0': [None, None], 's1': [5]})
+
+    async def run(cls, crashes):
+        cls.log.clear()
+        proc = cls()
+        n = 0
+        while not proc.has_terminated():
+            if n in crashes:
+                bundle = plumpy.Bundle(proc)
+                proc = bundle.unbundle()
+            await asyncio.wait_for(proc.step(), 10)
+            n += 1
+            if n > 200:
+                return list(cls.log), '<does not terminate>', n
+        res = proc.result() if proc.state.name == 'FINISHED' else '<%s: %r>' % (proc.state.name, proc.exception() if proc.state.name == 'EXCEPTED' else None)
+        return list(cls.log), res, n
+
+    async def main():
+        k = 0
+        for prog in progs:
+            for oracle in oracles:
+                k += 1
+                cls = make_chain(lambda c, prog=prog: _build(prog, c), oracle)
+                cls.__name__ = cls.__qualname__ = 'Chain%d' % k
+                cls.__module__ = 'rprocs'
+                setattr(rprocs, cls.__name__, cls)
+                want_calls, want_res, nsteps = await run(cls, ())
+                ref_calls, ref_res = _ref_run(prog, oracle)
+                if want_calls != ref_calls or want_res != ref_res:
+                    continue   # the uninterrupted run itself is C09's subject
+                points = [(i,) for i in range(nsteps)] + [(i, i + 1) for i in range(0, nsteps - 1, 2)]
+                for crashes in points:
+                    try:
+                        got_calls, got_res, _ = await run(cls, crashes)
+                    except Exception as e:  # noqa
+                        return f'outline {prog} with oracle {oracle}: resuming from the checkpoint before step {crashes} fails: {type(e).__name__}: {e}'
+                    if got_calls != want_calls or got_res != want_res:
+                        return (f'outline {prog} with oracle {oracle}: checkpoint+restore before step(s) {crashes} gives calls {got_calls} '
+                                f'result {got_res!r}; uninterrupted: calls {want_calls} result {want_res!r}')
+        return await plain_process_resume()
+
+    async def plain_process_resume():
+        """a plain process (Wait / Continue continuations with arguments, steps reading inputs and writing outputs), with and
+        without inputs; the external resume values are replayed after each restore"""
+        class P(plumpy.Process):
+            @classmethod
+            def define(cls, spec):
+                super().define(spec)
+                spec.inputs.dynamic = True
+                spec.outputs.dynamic = True
+
+            def run(self):
+                self.out('trace0', 'run')
+                return plumpy.Wait(self.second, msg='w1')
+
+            def second(self, value=None):
+                self.out('trace1', ('second', value, self.inputs.get('scale', 2)))
+                return plumpy.Continue(self.third, 3, k=4)
+
+            def third(self, a, k=None):
+                self.out('trace2', ('third', a, k, dict(self.inputs)))
+                return plumpy.Wait(self.fourth)
+
+            def fourth(self, value=None):
+                self.out('trace3', ('fourth', value))
+                return a_result(self)
+
+        def a_result(proc):
+            return sorted(proc.outputs)
+
+        P.__qualname__ = P.__name__ = 'ResumeP'
+        P.__module__ = 'rprocs'
+        setattr(rprocs, 'ResumeP', P)
+
+        async def run_p(inputs, crashes):
+            proc = P(inputs=dict(inputs)) if inputs is not None else P()
+            n = 0
+            nres = 0
+            while not proc.has_terminated():
+                if n in crashes:
+                    proc = plumpy.Bundle(proc).unbundle()
+                if proc.state.name == 'WAITING':
+                    nres += 1
+                    proc.resume('r%d' % nres)
+                await asyncio.wait_for(proc.step(), 10)
+                n += 1
+                if n > 50:
+                    return '<does not terminate>', None, n
+            if proc.state.name != 'FINISHED':
+                return '<%s: %r>' % (proc.state.name, proc.exception() if proc.state.name == 'EXCEPTED' else None), dict(proc.outputs), n
+            return proc.result(), dict(proc.outputs), n
+
+        for inputs in (None, {}, {'scale': 5, 'other': [1]}):
+            want_res, want_out, nsteps = await run_p(inputs, ())
+            for crashes in [(i,) for i in range(nsteps)] + [(i, i + 1) for i in range(nsteps - 1)]:
+                try:
+                    got_res, got_out, _ = await run_p(inputs, crashes)
+                except Exception as e:  # noqa
+                    return f'process with inputs {inputs}: resuming from the checkpoint before step {crashes} fails: {type(e).__name__}: {e}'
+                if got_res != want_res or got_out != want_out:
+                    return (f'process with inputs {inputs}: checkpoint+restore before step(s) {crashes} gives result {got_res!r} outputs '
+                            f'{got_out}; uninterrupted: result {want_res!r} outputs {want_out}')
+        return None
+
+    return _run(main())
+
+
+# ---------------------------------------------------------------------------------------------------- C07
+def bundle_roundtrip(doc):
+    """bounded search: processes and workchains stopped in every kind of state (created, running/waiting mid-way, paused,
+    finished, excepted, killed): save -> load -> save again gives the same bundle, and the loaded process reports the same
+    observable facts; through an in-memory copy, pickle and YAML"""
+    import copy
+    import pickle
+    import plumpy
+    import rprocs
+    import yaml
+    from plumpy import persistence
+
+    def observe(p):
+        o = {'pid': p.pid, 'state': p.state.name, 'raw_inputs': dict(p.raw_inputs) if p.raw_inputs is not None else None,
+             'inputs': dict(p.inputs) if p.inputs is not None else None, 'outputs': dict(p.outputs), 'status': p.status,
+             'paused': p.paused, 'creation_time': p.creation_time}
+        if hasattr(p, 'ctx'):
+            o['ctx'] = {k: v for k, v in p.ctx.__dict__.items()} if hasattr(p.ctx, '__dict__') else dict(p.ctx)
+        if p.has_terminated():
+            if p.state.name == 'FINISHED':
+                o['outcome'] = ('finished', p.result(), p.is_successful)
+            elif p.state.name == 'KILLED':
+                o['outcome'] = ('killed', p.killed_msg())
+            else:
+                o['outcome'] = ('excepted', type(p.exception()).__name__, str(p.exception()))
+        return o
+
+    def norm(b):
+        b = copy.deepcopy(dict(b))
+
+        def strip(d):
+            # exception objects have no value equality: compare them by class and arguments
+            if isinstance(d, dict):
+                d.pop('traceback', None)
+                for k, v in list(d.items()):
+                    if isinstance(v, BaseException):
+                        d[k] = ('<exception>', type(v).__name__, v.args)
+                    else:
+                        strip(v)
+            elif isinstance(d, (list, tuple)):
+                for v in d:
+                    strip(v)
+        strip(b)
+        return b
+
+    class Plain(plumpy.Process):
+        @classmethod
+        def define(cls, spec):
+            super().define(spec)
+            spec.input('a', default=5)
+            spec.inputs.dynamic = True
+            spec.outputs.dynamic = True
+
+        def run(self):
+            self.out('first', 1)
+            return plumpy.Wait(self.after, msg='waiting for x', data={'k': 1})
+
+        def after(self, value=None):
+            self.out('second', value)
+            if self.inputs.get('boom'):
+                raise RuntimeError('boom')
+            return plumpy.Continue(self.last, 7, kw=8)
+
+        def last(self, x, kw=None):
+            self.out('third', (x, kw))
+            return 42
+
+    class Chain(plumpy.WorkChain):
+        @classmethod
+        def define(cls, spec):
+            super().define(spec)
+            spec.inputs.dynamic = True
+            spec.outputs.dynamic = True
+            spec.outline(cls.s0, plumpy.if_(cls.yes)(cls.s1, cls.s2), plumpy.while_(cls.again)(cls.s3), cls.s4)
+
+        def s0(self):
+            self.ctx.n = 0
+            self.ctx.trace = ['s0']
+
+        def yes(self):
+            return True
+
+        def s1(self):
+            self.ctx.trace.append('s1')
+
+        def s2(self):
+            self.ctx.trace.append('s2')
+            self.out('mid', 3)
+
+        def again(self):
+            return self.ctx.n < 2
+
+        def s3(self):
+            self.ctx.n += 1
+            self.ctx.trace.append('s3')
+
+        def s4(self):
+            self.ctx.trace.append('s4')
+
+    for k in (Plain, Chain):
+        k.__qualname__ = k.__name__ = 'RT' + k.__name__
+        k.__module__ = 'rprocs'
+        setattr(rprocs, k.__name__, k)
+
+    async def drive(proc, nsteps, resume_at=None):
+        for i in range(nsteps):
+            if proc.has_terminated():
+                break
+            if proc.state.name == 'WAITING' and isinstance(proc, Plain):
+                proc.resume('x')
+            await asyncio.wait_for(proc.step(), 10)
+
+    async def main():
+        bad = []
+        scenarios = []
+        for n in range(0, 6):
+            scenarios.append(('plain', {}, n, None))
+            scenarios.append(('plain', {'a': 1, 'extra': [1, 2]}, n, None))
+        scenarios.append(('plain', {'boom': True}, 6, None))
+        scenarios.append(('plain', {}, 1, 'pause'))
+        scenarios.append(('plain', {}, 2, 'kill'))
+        for n in range(0, 9):
+            scenarios.append(('chain', {'q': 1}, n, None))
+        scenarios.append(('chain', {}, 3, 'pause'))
+        scenarios.append(('chain', {}, 3, 'kill'))
+        scenarios.append(('plain', {}, 2, 'pause+kill'))
+        scenarios.append(('chain', {}, 3, 'pause+kill'))
+        for kind, inputs, n, ctl in scenarios:
+            cls = Plain if kind == 'plain' else Chain
+            proc = cls(inputs=dict(inputs))
+            await drive(proc, n)
+            if ctl == 'pause':
+                proc.pause('holding')
+            elif ctl == 'kill':
+                proc.kill('enough')
+            elif ctl == 'pause+kill':
+                proc.pause('holding')
+                proc.kill('enough')
+            where = f'{kind} process with inputs {inputs} after {n} steps{" + " + ctl if ctl else ""} (state {proc.state.name})'
+            try:
+                b1 = persistence.Bundle(proc)
+            except Exception as e:  # noqa
+                bad.append(f'{where}: cannot be saved: {type(e).__name__}: {e}')
+                continue
+            carriers = {'copy': lambda b: copy.deepcopy(b), 'pickle': lambda b: pickle.loads(pickle.dumps(b)),
+                        'yaml': lambda b: yaml.load(yaml.dump(b), Loader=yaml.Loader)}
+            for cname, carry in carriers.items():
+                try:
+                    loaded = carry(b1).unbundle()
+                    b2 = persistence.Bundle(loaded)
+                except Exception as e:  # noqa
+                    bad.append(f'{where}: load/save after travelling as {cname} fails: {type(e).__name__}: {e}')
+                    continue
+                if norm(b1) != norm(b2):
+                    diff = [k for k in set(b1) | set(b2) if norm(b1).get(k) != norm(b2).get(k)]
+                    bad.append(f'{where}: save-load-save through {cname} changes the bundle at keys {diff}')
+                o1, o2 = observe(proc), observe(loaded)
+                if o1 != o2:
+                    diff = {k: (o1.get(k), o2.get(k)) for k in o1 if o1.get(k) != o2.get(k)}
+                    bad.append(f'{where}: the process loaded through {cname} differs observably: {diff}')
+            if len(bad) > 3:
+                break
+        return '; '.join(bad[:4]) or None
+
+    return _run(main())
